@@ -227,6 +227,7 @@ func (e StdEng) reduce(
 
 		retVal = a
 		dimsReduced := 0
+		along = append([]int(nil), along...) // sort a copy: the caller's slice is not ours to reorder
 		sort.Slice(along, func(i, j int) bool { return along[i] < along[j] })
 
 		for _, axis := range along {
